@@ -1,5 +1,6 @@
 ID = "C03"
 CFG = {
+    "fuzz": [("alloc_ops", 600)],
     "level": "exploration",
     "engine": "E1 vh + E2 sc shim",
     "package": "c03", "bin": "c03",
